@@ -435,13 +435,14 @@ func decodeCompositParams(name string, value string, pattern string, names []str
 		toskip := pattern[:pleft]
 		pright := strings.Index(pattern, "}")
 		vright := strings.Index(value, toskip)
+		rest := ""
 		if vright >= 0 {
 			values = append(values, value[:vright])
+			rest = value[vright+len(toskip):]
 		} else {
 			values = append(values, "")
-			value = ""
 		}
-		return decodeCompositParams(pattern[pleft+1:pright], value[vright+len(toskip):], pattern[pright+1:], names, values)
+		return decodeCompositParams(pattern[pleft+1:pright], rest, pattern[pright+1:], names, values)
 	}
 	return names, values
 }
